@@ -172,9 +172,26 @@ func caseCLI(t *testing.T, tp *simrt.Tape, c *Ctx) (res Result) {
 	maxLen := min(L, 6)
 	setFieldHints(rc.M, rc.R, rc.W)
 	template := L >= 4 && tp.Draw("cli.template", 5) == 0
+	sniper := template && tp.Draw("cli.template.kind", 2) == 0
+	sniperD := uint64(3 + tp.Draw("cli.sniper.d", int(rc.M)-3))
+	if len(fieldHints) > 0 && tp.Draw("cli.sniper.hint", 3) != 0 {
+		sniperD = fieldHints[tp.Draw("cli.sniper.hintval", len(fieldHints))] % rc.M
+	}
 	for i := 0; i < nw; i++ {
 		w := genLoadWarrior(tp, rc.M, is88, maxLen)
-		if template {
+		if template && sniper {
+			// a sniper dropping one bomb at distance D on a sitter placed there:
+			// the outcome depends on exactly where a write at distance D lands
+			// (read/write limits of the configuration in force)
+			if i == 0 {
+				w = ref.Warrior{Code: []ref.Ins{
+					{Op: ref.MOV, Mod: ref.MI, AMode: ref.Direct, A: 2, BMode: ref.Direct, B: sniperD},
+					{Op: ref.JMP, Mod: ref.MB, AMode: ref.Direct, A: 0, BMode: ref.Direct, B: 0},
+					{Op: ref.DAT, Mod: ref.MF, AMode: ref.Immediate, A: 0, BMode: ref.Immediate, B: 0}}}
+			} else {
+				w = ref.Warrior{Code: []ref.Ins{{Op: ref.JMP, Mod: ref.MB, AMode: ref.Direct, A: 0, BMode: ref.Direct, B: 0}}}
+			}
+		} else if template {
 			// classic shapes whose outcome depends on process counts and timing:
 			// a process hoarder and a stepping bomber
 			if i == 0 {
@@ -246,6 +263,9 @@ func caseCLI(t *testing.T, tp *simrt.Tape, c *Ctx) (res Result) {
 			return
 		}
 		place = uint64(lo + tp.Draw("cli.F", hi-lo+1))
+		if sniper && int(sniperD) >= lo && int(sniperD) <= hi && tp.Draw("cli.sniper.aim", 4) != 0 {
+			place = sniperD // the sitter stands where the bomb is aimed
+		}
 		if place == 0 {
 			place = uint64(lo)
 		}
